@@ -118,9 +118,6 @@ void h_filter_matches(void) {
   key.data = NULL; key.size = 0; key.alloc = 0;
   pol.match = stub_match; pol.build = NULL;
   ldb_filter_init(&fr, &pol, &c);      /* real initialiser (its own contract: flt.init) */
-#ifdef FLT_LG11
-  ASSUME(fr.base_lg == 11); /* quick variant: the only base_lg the builder ever writes */
-#endif
   g_blk = buf; g_blk_n = in_n; g_match_calls = 0;
   /* logical variables: arbitrary here, bound by the requires clauses of the contract */
   g_ao = nondet_size(); g_start = nondet_u32(); g_limit = nondet_u32();
@@ -204,5 +201,5 @@ void h_bloom_match(void) {
   CHECK(in_n < 2 || r == 1, "bloom_match: k > 30 is reserved: treated as a match");
   CANARY();
 }
-#endif
 #endif /* !FLT_NO_BLOOM */
+#endif /* !VERIF_NATIVE */
